@@ -11,8 +11,11 @@ import MidnightZK.Gen.C12Consts
 namespace MidnightZK.C12.Driver
 open MidnightZK MidnightZK.C12
 
-def curveOf (s : String) : Option CurveP :=
-  if s = "bls" then some bls12381G1 else if s = "bn" then some bn256G1 else none
+def blsTable : List Jac := doublings bls12381G1.p 256 bls12381G1.gen
+def bnTable : List Jac := doublings bn256G1.p 256 bn256G1.gen
+
+def curveOf (s : String) : Option (CurveP × List Jac) :=
+  if s = "bls" then some (bls12381G1, blsTable) else if s = "bn" then some (bn256G1, bnTable) else none
 
 /-- `b:s,b:s,…` (hex, no prefix) or `-`. -/
 def parsePairs (s : String) : Option (List (Nat × Nat)) :=
@@ -125,14 +128,14 @@ def answer (line : String) : String :=
     | some t, some k, some logs =>
       if t = 0 then "bad-op" else
       match gToLagrange frConsts t (fr Gen.twoInv) (fr Gen.rootOfUnityInv) frPow (frList logs) k with
-      | some l => " ".intercalate (l.map (fun e => fmtAffine (toAffine bls12381G1.p (bls12381G1.mulGen e.val))))
+      | some l => " ".intercalate (l.map (fun e => fmtAffine (toAffine bls12381G1.p (bls12381G1.mulGenTable blsTable e.val))))
       | none => "panic"
     | _, _, _ => "bad-op"
   | ["commit", s, coeffs] =>
     -- `KZGCommitmentScheme::commit`: Σ coeffᵢ·[sⁱ]G
     match parseNat? s, parseNatList? coeffs with
     | some s, some coeffs =>
-      fmtAffine (toAffine bls12381G1.p (bls12381G1.mulGen (horner (frList coeffs) (fr s)).val))
+      fmtAffine (toAffine bls12381G1.p (bls12381G1.mulGenTable blsTable (horner (frList coeffs) (fr s)).val))
     | _, _ => "bad-op"
   | ["commitlag", t, k, s, evals] =>
     -- `commit_lagrange`: Σ evalᵢ·[lᵢ(s)]G, i.e. the commitment to the interpolating polynomial
@@ -142,7 +145,7 @@ def answer (line : String) : String :=
       match frDomain 1 k with
       | some d =>
         match d.lagrangeToCoeff t (frList evals) with
-        | some c => fmtAffine (toAffine bls12381G1.p (bls12381G1.mulGen (horner c (fr s)).val))
+        | some c => fmtAffine (toAffine bls12381G1.p (bls12381G1.mulGenTable blsTable (horner c (fr s)).val))
         | none => "panic"
       | none => "panic"
     | _, _, _, _ => "bad-op"
@@ -164,16 +167,16 @@ def answer (line : String) : String :=
     | none => "bad-op"
   | ["gen", c] =>
     match curveOf c with
-    | some cp => fmtAffine (toAffine cp.p cp.gen) ++ (if onCurve cp cp.gx cp.gy then " on" else " off")
+    | some (cp, _) => fmtAffine (toAffine cp.p cp.gen) ++ (if onCurve cp cp.gx cp.gy then " on" else " off")
     | none => "bad-op"
   | ["msm", "bls", "multiexp-empty", _, _, _, "-"] =>
     -- `G1Projective::multi_exp(&[], &[])`: the blst binding indexes `points[0]`
     "panic"
   | ["msm", c, entry, t, acc0, nbytes, pairs] =>
     match curveOf c, t.toNat?, parseNat? acc0, nbytes.toNat?, parsePairs pairs with
-    | some cp, some t, some acc0, some nbytes, some pairs =>
+    | some (cp, table), some t, some acc0, some nbytes, some pairs =>
       match runMsm cp entry t acc0 nbytes pairs with
-      | some k => fmtAffine (toAffine cp.p (cp.mulGen k.val))
+      | some k => fmtAffine (toAffine cp.p (cp.mulGenTable table k.val))
       | none => "bad-op"
     | _, _, _, _, _ => "bad-op"
   | _ => "bad-op"
